@@ -55,11 +55,23 @@ def gen_path(rng):
         if q < .85:
             return "[@k='%s' and @j='%s']" % (rng.choice(["1", "2"]), rng.choice(["1", "x"]))
         return "[@k='1'][@j='x']"
+    def many():
+        """three or four separate brackets on distinct attributes; sometimes a not-locatable one in the middle"""
+        names = ["k", "j", "p:k", "n"]
+        rng.shuffle(names)
+        k = rng.choice([3, 3, 4])
+        out = ["[@%s='%s']" % (a, rng.choice(["1", "2", "x"])) for a in names[:k]]
+        if rng.random() < .3:
+            out[rng.randrange(1, k - 1)] = rng.choice(["[2]", "[@j]", "[@k!='1']", "[1]"])
+        return "".join(out)
     steps = []
     for _ in range(rng.randint(1, 3)):
         s = rng.choice(["a", "a", "b", "b", "c", "p:a", "n"])
-        if rng.random() < .4:
+        q = rng.random()
+        if q < .35:
             s += pred()
+        elif q < .55:
+            s += many()
         steps.append(s)
     e = "/".join(steps)
     r = rng.random()
